@@ -17,7 +17,6 @@ import (
 	coreheader "cosmossdk.io/core/header"
 	sdkmath "cosmossdk.io/math"
 	"cosmossdk.io/x/feegrant"
-	wasmvmtypes "github.com/CosmWasm/wasmvm/v2/types"
 	abci "github.com/cometbft/cometbft/abci/types"
 	codectypes "github.com/cosmos/cosmos-sdk/codec/types"
 	sdk "github.com/cosmos/cosmos-sdk/types"
@@ -77,6 +76,9 @@ import (
 //        also through the wasm bindings; batch confirmations with sender, orchestrator, eth signer,
 //        signing key and signed item chosen independently.  Monitors denom-cross-principal-write
 //        and confirm-not-validators-own-signature (the latter after EVERY delivery of the test).
+//   xdh  (c03_dispatch_test.go) MsgExec wrappers holding SEVERAL messages (a foreign creator first / middle /
+//        last among the actor's own), dispatched by a contract or sent in a transaction, in SEQUENCES
+//        through the application's one wasm router value (honest dispatches before a forged one).
 // The monitor is a diff of all store entries "attributed to B": every entry of
 // the paloma module stores + feegrant + bank + acc whose key or value contains
 // B's address bytes, one of its bech32 renderings (account, valoper) or its eth
@@ -975,6 +977,8 @@ func TestC03(t *testing.T) {
 			dir.confirmHistory()
 		case 1, 5:
 			dir.lightNodeHistory()
+		case 9:
+			dir.dispatchHistory()
 		}
 		if r.Rng.Intn(10) < 3 {
 			multiCase()
@@ -1092,27 +1096,13 @@ func TestC03(t *testing.T) {
 					ex := authz.NewMsgExec(A.acc.Addr, []sdk.Msg{outer})
 					outer = &ex
 				}
-				bz, err := fa.App().AppCodec().Marshal(outer.(interface {
-					Reset()
-					String() string
-					ProtoMessage()
-				}))
-				if err != nil {
-					return FATxResult{Code: 1, Log: "marshal: " + err.Error()}
-				}
-				var derr error
-				b, herr := fa.WithDeliverCtx(func(ctx sdk.Context) error {
-					_, _, _, derr = fa.App().VerifWasmMessenger().DispatchMsg(ctx, A.acc.Addr, "", wasmvmtypes.CosmosMsg{Any: &wasmvmtypes.AnyMsg{TypeURL: sdk.MsgTypeURL(outer), Value: bz}})
-					return derr
-				})
-				res := FATxResult{Height: b.Height}
-				if herr != nil || derr != nil {
-					res.Code, res.Log = 1, fmt.Sprint(herr, derr)
-					// the creator gate of the wasm message router plays the part of the ante decorator here: a
-					// message it let through (and the handler then refused) counts as "passed"
-					if !strings.Contains(res.Log, "cannot dispatch a message created by") && !strings.Contains(res.Log, "nested too deeply") && wdepth <= 6 {
-						res.Events = []abci.Event{{Type: "verif-passed-the-creator-gate"}}
-					}
+				// through the application's ONE router value, like every other dispatch of the test: whatever
+				// earlier (honest) dispatches left behind in it is in force here
+				res, gatePassed := dir.c03DispatchAny(A.acc, outer, wdepth)
+				// the creator gate of the wasm message router plays the part of the ante decorator here: a
+				// message it let through (and the handler then refused) counts as "passed"
+				if !res.OK() && gatePassed {
+					res.Events = []abci.Event{{Type: "verif-passed-the-creator-gate"}}
 				}
 				return res
 			}
@@ -1364,7 +1354,11 @@ type c03Dir struct {
 
 	denomSeq int
 	prevCP   []byte
-	tfWasm   interface {
+	// the wasm message router of the running application (c03_dispatch_test.go): one value per
+	// application instance, shared by every contract dispatch of the test
+	rtApp  interface{}
+	rt     c03Messenger
+	tfWasm interface {
 		DispatchMsg(sdk.Context, sdk.AccAddress, string, tfbindingstypes.Message) ([]sdk.Event, [][]byte, [][]*codectypes.Any, error)
 	}
 	skyWasm interface {
@@ -1503,6 +1497,28 @@ func c03DenomMetaKind(w *ZooWorld, ctx sdk.Context, denom string) string {
 	return "c"
 }
 
+// drainDenom brings the supply of denom to zero ("everything minted was burned again"): the state
+// every holder sending its coins to the admin and the admin burning them reaches.
+func (d *c03Dir) drainDenom(denom string, holders []c03Principal) {
+	a := d.w.FA.App()
+	_ = d.w.God(func(ctx sdk.Context) error {
+		for _, p := range holders {
+			bal := a.BankKeeper.GetBalance(ctx, p.acc.Addr, denom)
+			if !bal.IsPositive() {
+				continue
+			}
+			c := sdk.NewCoins(bal)
+			if err := a.BankKeeper.SendCoinsFromAccountToModule(ctx, p.acc.Addr, tokenfactorytypes.ModuleName, c); err != nil {
+				return err
+			}
+			if err := a.BankKeeper.BurnCoins(ctx, tokenfactorytypes.ModuleName, c); err != nil {
+				return err
+			}
+		}
+		return nil
+	})
+}
+
 // denomHistory: one `dnh` line.  TWO denoms (1: factory/<C>/<sub>, 2: factory/<F>/<sub>f, named after
 // different principals) are created, handed over, handed on, used by current / former admins, the
 // accounts in their names, bystanders and grantees, by signed transactions and through the wasm
@@ -1548,6 +1564,7 @@ func (d *c03Dir) denomHistory() {
 	var cur [3]int      // admin as last observed on the implementation (0: none)
 	var former [3][]int // principals that were admin before (and the creator named in the denom)
 	var created [3]bool
+	var wantRecreate [3]bool
 	steps := 6 + rng.Intn(4)
 	var toks, outs []string
 	line := func() string { return fmt.Sprintf("dnh %d %d %s", C.pid, F.pid, strings.Join(toks, " ")) }
@@ -1665,12 +1682,30 @@ func (d *c03Dir) denomHistory() {
 				S, g = other(namesake[dn].pid), rng.Intn(2) == 0
 			}
 		}
+		// RE-CREATION: a creating message for a denom that already EXISTS.  The only account whose
+		// MsgCreateDenom / create_denom spells factory/<N>/<sub> is N, the account in the name - which after a
+		// hand-over is a FORMER admin.  Sent right after a hand-over or a renouncement, later in the
+		// history, after mints and burns, and with the denom's supply at exactly zero (never minted, or
+		// everything burned again): whatever the chain looks at to decide "exists", a denom that exists is
+		// its current admin's and a second creation must leave admin, records, metadata and supply alone.
+		recreate := false
+		if created[dn] && (wantRecreate[dn] || rng.Intn(100) < 10) {
+			wantRecreate[dn] = false
+			recreate = true
+			kind, S, Cr, g = "create", namesake[dn], namesake[dn], false
+			if rng.Intn(8) == 0 {
+				S, g = other(namesake[dn].pid), rng.Intn(2) == 0
+			}
+			if rng.Intn(2) == 0 {
+				d.drainDenom(denom, pool)
+			}
+		}
 		route := "t"
 		if haveWasm && Cr.pid == S.pid && !g && rng.Intn(3) == 0 {
 			route = "w"
 		}
 		// fields that disagree: the admin of THIS denom names the OTHER denom as metadata.base
-		disagree := haveWasm && created[dn] && cur[dn] > 1 && rng.Intn(100) < 15
+		disagree := !recreate && haveWasm && created[dn] && cur[dn] > 1 && rng.Intn(100) < 15
 		if disagree {
 			S, Cr, g, kind, route = byPid[cur[dn]], byPid[cur[dn]], false, "setmeta", "w"
 		}
@@ -1844,6 +1879,21 @@ func (d *c03Dir) denomHistory() {
 		if dn == 2 {
 			r.Stat("dnh:second-denom")
 		}
+		if recreate {
+			r.Stat("dnh:recreate")
+			if pre[dn].comp["supply"] == "0" {
+				r.Stat("dnh:recreate-supply-zero")
+			}
+			if cur[dn] != namesake[dn].pid {
+				r.Stat("dnh:recreate-after-hand-over")
+				if pre[dn].comp["supply"] == "0" {
+					r.Stat("dnh:recreate-after-hand-over-supply-zero")
+				}
+			}
+			if route == "w" {
+				r.Stat("dnh:recreate-by-binding")
+			}
+		}
 		switch {
 		case cur[dn] > 1 && S.pid == cur[dn] && Cr.pid == cur[dn]:
 			r.Stat("dnh:by-current-admin")
@@ -1866,6 +1916,9 @@ func (d *c03Dir) denomHistory() {
 		}
 		if kind == "chadmin" && ok && pre[dn].admin != post[dn].admin && (rng.Intn(100) < 35 || post[dn].admin == "" && rng.Intn(2) == 0) {
 			wantReimport = true // a restart right after a hand-over / renouncement
+		}
+		if kind == "chadmin" && ok && pre[dn].admin != post[dn].admin && post[dn].admin != namesake[dn].acc.Addr.String() && rng.Intn(100) < 45 {
+			wantRecreate[dn] = true // the account in the name tries to take the denom back by creating it again
 		}
 		track(post)
 	}
